@@ -23,6 +23,14 @@ CHECKS = {
         text="Lean proof that the preservation pass gives every file exactly the single-file regeneration of its own old content and own expansion, independent of all other files and expansions, for all file names (C04_isolation, C04_other_files_irrelevant, C04_other_expansions_irrelevant); tied to the code by marker-multiset histories over machines whose file names contain one another and by synthetic code models through preserve_usercode_in_files/createoutput.",
         ref="DESIGN.md 6/C04", technique="Lean 4 proof (fold invariant over the ordered dictionary) + model/implementation correspondence",
         note="Same trusted base as C01. Hypotheses: code-model keys pairwise distinct, no generated file named like another's LostCode file. Known finding uml-overload-tag-collision (duplicate tag inside one file) via witness probe."),
+    "C05": dict(
+        text="Lean proof over the output stage's I/O script (one Op per system operation): after process death at ANY operation index with ANY prefix of buffered data, and after a raised error at ANY operation, every path that is not one of the stage's temporary names holds its old content or the complete new content (C05_per_file_atomic, C05_raised_error, C05_nothing_touched_before_first_rename); tied to the code by translation validation of the traced operation sequence of real runs against script(), and by fault enumeration (ENOSPC raised / os._exit in a forked child) at every structural operation and sampled writes.",
+        ref="DESIGN.md 6/C05", technique="Lean 4 proof (induction over the I/O script, every crash index) + translation validation of traced I/O + fault enumeration",
+        note="Assumes POSIX rename atomicity and that distinct path strings denote distinct files; the tracer patches open/os.makedirs/os.replace/os.remove/shutil.copymode in the harness process. Power-loss durability (fsync) is out of scope."),
+    "C18": dict(
+        text="Lean proof that replace-mode Emplace over any well-formed destination yields the destination with exactly the shared bodies replaced, frame and B-only pairs identical, idempotent, and that only the destination entry of the file world changes (C18_sync_result, C18_shared_bodies_replaced, C18_rest_of_B_untouched, C18_B_only_pairs_kept, C18_idempotent, C18_only_destination_written, flatten_splitLines); tied to the code by differential runs of Generate.FileSync against Model.fileSync and against a by-name splice oracle, bytes of A, B and the directory listing compared.",
+        ref="DESIGN.md 6/C18", technique="Lean 4 proof (induction over documents, replace mode) + model/implementation correspondence",
+        note="Same trusted base as C01. 'Comment style' means characters CleanUpLine strips (/ * # ~ ` @ $ % ? + } ] > = and white space); styles such as <!-- --> are outside the tool's notion of a tag line."),
 }
 PENDING = {}
 
